@@ -88,6 +88,7 @@ func (vm *VM) compile(ctx context.Context, text *text, s string, args ...interfa
 		return err
 	}
 
+	p.text = true
 	for p.More() {
 		p.Vars = p.Vars[:0]
 		t, err := p.Term()
@@ -130,6 +131,9 @@ func (vm *VM) compile(ctx context.Context, text *text, s string, args ...interfa
 
 			text.buf = append(text.buf, cs...)
 		}
+	}
+	if len(p.args) != 0 {
+		return errTooManyArgs(p.args)
 	}
 	return nil
 }
